@@ -4,7 +4,7 @@
   verif.py check <PROPERTY> [--tier quick|thorough]
   verif.py replay <replay.json>
   verif.py setup
-Environment: VERIF_SEED (default 1), VERIF_TIER, VERIF_REPO (default /repo), VERIF_WORKERS (default 16).
+Environment: VERIF_SEED (default 1), VERIF_TIER, VERIF_REPO (default /repo), VERIF_WORKERS (default 16), VERIF_MAX_VIOLATIONS (per worker, default 6).
 Exit codes: 0 property held on everything explored (known findings are printed, not failed); 1 violation
 (stdout line `VIOLATION property=<id> replay=<path>`); 2 the machinery itself failed (build error, nondeterminism).
 """
@@ -238,7 +238,7 @@ def cmd_check(prop, tier):
             envu["DSIM_PEER_FILE"] = peer_files[(binary, world)]
         for w in range(nw):
             cmd = [os.path.join(bdir, binary), "run", "--world", world, "--seed", str(seed), "--from", "0", "--count", str(count), "--stride", str(nw), "--offset", str(w),
-                   "--tier", "0" if tier == "quick" else "1", "--out", outdir, "--max-seconds", str(cap), "--max-violations", "6", "--known-file", known_file]
+                   "--tier", "0" if tier == "quick" else "1", "--out", outdir, "--max-seconds", str(cap), "--max-violations", os.environ.get("VERIF_MAX_VIOLATIONS", "6"), "--known-file", known_file]
             procs.append((binary, world, w, subprocess.Popen(cmd, stdout=subprocess.PIPE, stderr=subprocess.DEVNULL, text=True, env=envu)))
     stats = dict(runs=0, steps=0, nontrivial=0, checks=0, faults={}, probes={})
     violations, nondet, samples, truncated, harness_errors = [], [], [], 0, 0
